@@ -7,34 +7,41 @@ read from `data` (`Descriptor.Block.dec_rawSize_inside`, `Descriptor.findRaw_le`
 engine-data parser that is linear in its input (`A · len + Bc`) keeps the whole run linear in `len(data)`.
 -/
 import PsdVerif.Model.TyShCost
+import PsdVerif.Lemmas.DescriptorRawSize
 import PsdVerif.Lemmas.PayloadCostDesc
 
 namespace PsdVerif.PayloadCost
 open PsdVerif PsdVerif.Codec PsdVerif.PsdCost PsdVerif.Payload PsdVerif.Payload3 PsdVerif.Safe PsdVerif.SafeCost
 
+theorem exc_bind_ok {α β : Type} {m : Except Err β} {f : β → Except Err α} {y : α} (h : (m >>= f) = .ok y) :
+    ∃ x, m = .ok x ∧ f x = .ok y := by
+  cases m with
+  | error e => cases h
+  | ok x => exact ⟨x, rfl, h⟩
+
 /-- the raw values of the text descriptor of a `TypeToolObjectSetting` read from `d` fit in `d` -/
 theorem TypeToolObjectSetting.dec_rawSize {tb : Descriptor.Tables} {d : B} {p : Nat} {v : TypeToolObjectSetting} {p' : Nat}
     (h : TypeToolObjectSetting.dec tb d p = .ok (v, p')) : Descriptor.rawSizeItems v.textData.items ≤ d.length := by
   unfold TypeToolObjectSetting.dec at h
-  obtain ⟨⟨version, p1⟩, _, h⟩ := bind_ok h
+  obtain ⟨⟨version, p1⟩, _, h⟩ := exc_bind_ok h
   dsimp only at h
-  obtain ⟨⟨tr, p2⟩, _, h⟩ := bind_ok h
+  obtain ⟨⟨tr, p2⟩, _, h⟩ := exc_bind_ok h
   dsimp only at h
-  obtain ⟨⟨tv, p3⟩, _, h⟩ := bind_ok h
+  obtain ⟨⟨tv, p3⟩, _, h⟩ := exc_bind_ok h
   dsimp only at h
-  obtain ⟨⟨text, p4⟩, h4, h⟩ := bind_ok h
+  obtain ⟨⟨text, p4⟩, h4, h⟩ := exc_bind_ok h
   dsimp only at h
-  obtain ⟨⟨wv, p5⟩, _, h⟩ := bind_ok h
+  obtain ⟨⟨wv, p5⟩, _, h⟩ := exc_bind_ok h
   dsimp only at h
-  obtain ⟨⟨warp, p6⟩, _, h⟩ := bind_ok h
+  obtain ⟨⟨warp, p6⟩, _, h⟩ := exc_bind_ok h
   dsimp only at h
-  obtain ⟨⟨l, p7⟩, _, h⟩ := bind_ok h
+  obtain ⟨⟨l, p7⟩, _, h⟩ := exc_bind_ok h
   dsimp only at h
-  obtain ⟨⟨t, p8⟩, _, h⟩ := bind_ok h
+  obtain ⟨⟨t, p8⟩, _, h⟩ := exc_bind_ok h
   dsimp only at h
-  obtain ⟨⟨r, p9⟩, _, h⟩ := bind_ok h
+  obtain ⟨⟨r, p9⟩, _, h⟩ := exc_bind_ok h
   dsimp only at h
-  obtain ⟨⟨b, p10⟩, _, h⟩ := bind_ok h
+  obtain ⟨⟨b, p10⟩, _, h⟩ := exc_bind_ok h
   dsimp only at h
   have h5 := Descriptor.Block.dec_rawSize_inside h4
   split at h
@@ -65,6 +72,7 @@ theorem tyshRunner_bound_of {tb : Descriptor.Tables} {engine : B → CE Unit} {a
   cases hx : (TypeToolObjectSetting.decC tb data 0).1 with
   | error e =>
     have h1 := c.of_error hx
+    rw [Nat.sub_zero] at h1
     rw [bind_err' hx]
     dsimp only
     rw [w_add, hw]
@@ -75,8 +83,9 @@ theorem tyshRunner_bound_of {tb : Descriptor.Tables} {engine : B → CE Unit} {a
   | ok y =>
     obtain ⟨v, p'⟩ := y
     have h1 := c.of_ok hx
+    rw [Nat.sub_zero] at h1
     have hd : TypeToolObjectSetting.dec tb data 0 = .ok (v, p') := by rw [← hfst]; exact hx
-    have hmul : a * (p' - 0) ≤ a * data.length := Nat.mul_le_mul_left a (by omega)
+    have hmul : a * p' ≤ a * data.length := Nat.mul_le_mul_left a (by omega)
     rw [bind_ok' hx]
     dsimp only
     cases hf : Descriptor.findRaw engineDataKey v.textData.items with
